@@ -1157,7 +1157,7 @@ theorem template_sim : ∀ (ann : Ann), Sim (Rel k hist) (fun a b => b = a.shift
     exact Sim.pure (by simp [Val.shift, Elem.shift])
   | .bareArray => by
     unfold template
-    exact Sim.pure (by simp [Val.shift, Elem.shift])
+    exact Sim.throw _
 
 theorem bindParams_sim (fid : Id) : ∀ (ps : List (String × Ann)),
     Sim (Rel k hist) (fun a b => b = (a.1.map (fun p => (sh k p.1, p.2.shift k)), shiftRegs k a.2))
